@@ -1080,9 +1080,11 @@ impl<T: Serialize + for<'de> Deserialize<'de> + Clone + PartialEq + Send + Sync 
             valid_len += 4 + entry_size as u64;
 
             // Deserialize entry
-            let entry: WalEntry = match postcard::from_bytes(&buffer) {
-                Ok(e) => e,
-                Err(_) => {
+            // The entry has to fill its frame exactly: trailing bytes mean the length prefix
+            // is damaged and the frame swallowed (part of) the following entries.
+            let entry: WalEntry = match postcard::take_from_bytes::<WalEntry>(&buffer) {
+                Ok((e, rest)) if rest.is_empty() => e,
+                _ => {
                     stats.corruption_events.push(CorruptionEvent {
                         file_path: path.to_path_buf(),
                         corruption_type: CorruptionType::InvalidFormat,
